@@ -39,13 +39,15 @@ UNIVERSE = [
     # names and comments that differ only by spaces
     ('ecdsa-k256-0', ('Ann Lee (x y) <annlee@example.org>',), ()),
     ('rsa1024-0', ('AnnLee (xy)',), ()),
+    # a user id is UTF-8 text; line breaks in it are unusual but legal
+    ('ecdsa-p384-1', ('Multi\nLine (two\nlines) <ml@example.org>',), ()),
 ]
 FORMS = ['object', 'binary', 'armored', 'file', 'list', 'tuple', 'dup-list', 'dup-args']
 
 
 def split_uid(u):
     import re
-    m = re.match(r'^(?P<name>.+?)( \((?P<comment>.+?)\)(?=( <|$)))?( <(?P<email>.+)>)?$', u)
+    m = re.match(r'^(?P<name>.+?)( \((?P<comment>.+?)\)(?=( <|\Z)))?( <(?P<email>.+)>)?\Z', u, re.S)
     return m.group('name'), m.group('comment') or '', m.group('email') or ''
 
 
